@@ -8,6 +8,7 @@ from typing import TYPE_CHECKING, Any, Awaitable, Callable, NoReturn
 from repid._asyncify import asyncify
 from repid._utils import _NoAction
 from repid.dependencies.protocols import DependencyKind
+from repid.logger import logger
 from repid.message import Message
 
 if TYPE_CHECKING:
@@ -98,7 +99,11 @@ class MessageDependency(Message):
                 ),
             )
 
-        self.__lazy_result_callback = partial(self._callbacks.insert, len(self._callbacks), _inner)
+        self.__lazy_result_callback = partial(
+            self._callbacks.insert,
+            len(self._callbacks),
+            self.__never_failing(_inner),
+        )
 
     def set_exception(self, exc: Exception) -> None:
         if self.parameters.result is None:
@@ -125,7 +130,25 @@ class MessageDependency(Message):
                 ),
             )
 
-        self.__lazy_result_callback = partial(self._callbacks.insert, len(self._callbacks), _inner)
+        self.__lazy_result_callback = partial(
+            self._callbacks.insert,
+            len(self._callbacks),
+            self.__never_failing(_inner),
+        )
+
+    def __never_failing(self, store_result: Callable[[], Awaitable]) -> Callable[[], Awaitable]:
+        # by the time the result is stored the message is already disposed,
+        # so a failure to store it must not turn into a failure of the actor
+        async def _inner() -> None:
+            try:
+                await store_result()
+            except Exception:  # noqa: BLE001
+                logger.exception(
+                    "Failed to store the result of message {message_id}.",
+                    extra={"message_id": self.key.id_},
+                )
+
+        return _inner
 
     async def __execute_callbacks(self) -> None:
         self.__lazy_result_callback()
